@@ -19,6 +19,7 @@ import GbVerif.Proofs.X86SimAdc
 import GbVerif.Proofs.X86SimFlagOps
 import GbVerif.Proofs.X86SimMem
 import GbVerif.Proofs.X86SimMemDec
+import GbVerif.Proofs.X86SimMemImm
 import GbVerif.Proofs.X86SimMemAlu
 import GbVerif.Proofs.X86SimRotT
 import GbVerif.Proofs.X86SimJump
@@ -468,6 +469,11 @@ theorem simulation_mem_a_partial (b1 b2 : Nat) :
 HL, byte A), then HL one lower modulo 2^16 exactly as the interpreter's `(hl + 0xffffffff) & 0xffff`; host stack and status byte untouched
 (`Proofs/X86SimMemDec.lean`: the literals are kept opaque so that neither the elaborator nor the kernel unfolds `Nat.add _ 4294967295`). -/
 theorem simulation_mem_dec_partial (b1 b2 : Nat) : SimulatesMem 0x32 b1 b2 := sim_std b1 b2
+
+/-- **simulation_mem_imm_partial**: LD (HL),n (0x36) for every operand byte — the template's helper call writes the operand byte (read
+from the instruction stream, the state's `op1`) at HL, exactly the interpreter's bus write; registers, host stack and status byte untouched
+(`Proofs/X86SimMemImm.lean`: `sti_body`, the store body with an immediate source). -/
+theorem simulation_mem_imm_partial (b1 b2 : Nat) (h : b1 < 256) : SimulatesMem 0x36 b1 b2 := sim_sthli b1 b2 h
 
 example : opcodeLdHl .A = 0x7e ∧ opcodeStHl .B = 0x70 := by decide
 
